@@ -69,3 +69,78 @@ def main(args):
         return 2
     print(f"determinism self-test passed: {total} runs x 3 configurations")
     return 0
+
+
+# ------------------------------------------------------------------ reference vs reference
+def reference_vs_reference(nruns=400, seed0=0):
+    """Trusted-base cross-check: two reference ASH endpoints (dst.refash.NcpEndpoint) talk over the faulty line;
+    the C01 delivery oracle must hold between them.  A failure here is a bug in the reference, not in bellows."""
+    import asyncio
+
+    from . import refash as R
+    from .line import FaultPlan, Line
+    from .loop import SimLoop, run_sim
+    from .tape import Tape, mix_seed
+
+    bad = []
+    fired_total = {}
+    for i in range(nruns):
+        tape = Tape(seed=mix_seed(seed0, "refref", i))
+        loop = SimLoop(tape, max_iters=100_000)
+        plan = FaultPlan.swarm(tape)
+        line = Line(loop, tape, plan, nodup_kinds=("rst", "rstack"))
+        ends = {}
+
+        def mk(name, direction):
+            def emit(frame_wo_crc, kind):
+                raw = R.with_crc(frame_wo_crc)
+                line.send(direction, b"", raw, R.wire_raw(raw), kind)
+            return R.NcpEndpoint(loop, tape, emit, K=1 + tape.draw(3, "K"))
+
+        a, b = mk("a", "h2n"), mk("b", "n2h")
+        line.h2n.sink = b.feed
+        line.n2h.sink = a.feed
+        na, nb = 1 + tape.draw(30, "na"), tape.draw(30, "nb")
+        pa = [b"A" + j.to_bytes(2, "big") + bytes([0x7E, 0x11, j & 0xFF]) for j in range(na)]
+        pb = [b"B" + j.to_bytes(2, "big") + bytes([0x1A, 0x7D, j & 0xFF]) for j in range(nb)]
+
+        async def main():
+            t = 0.0
+            for j, p in enumerate(pa):
+                t += (0.0, 0.001, 0.3, 2.0)[tape.draw(4, "gap")]
+                loop.external(t, a.submit, p, j)
+            t2 = 0.0
+            for j, p in enumerate(pb):
+                t2 += (0.0, 0.001, 0.3, 2.0)[tape.draw(4, "gap")]
+                loop.external(t2, b.submit, p, j)
+            await asyncio.sleep(max(t, t2) + 20.0)
+            plan.stop()
+            await asyncio.sleep(120.0)
+
+        outcome, val = run_sim(loop, main())
+        for k, v in plan.fired.items():
+            fired_total[k] = fired_total.get(k, 0) + v
+        for (src, dst, sent, tag) in ((a, b, pa, "a->b"), (b, a, pb, "b->a")):
+            got = [sent.index(p) if p in sent else -1 for p in dst.delivered]
+            pos = [src.submitted.index(g) for g in got if g in src.submitted]  # same-instant submissions may be reordered by the scheduler
+            if -1 in got or len(set(got)) != len(got) or pos != sorted(pos):
+                bad.append((i, tag, "delivery", got[:20], src.submitted[:20]))
+            for pid in src.acked:
+                if dst.delivered.count(sent[pid]) != 1:
+                    bad.append((i, tag, "acked-but-not-once", pid))
+            if src.failed is None and dst.failed is None and outcome == "done" and len(src.acked) != len(sent):
+                bad.append((i, tag, "not-all-acked-after-faults-stopped", (len(src.acked), len(sent))))
+        if outcome != "done":
+            bad.append((i, "-", "sim-" + outcome, repr(val)))
+    return bad, fired_total
+
+
+def main_reference(args):
+    n = args.runs or 400
+    bad, fired = reference_vs_reference(n, args.seed)
+    print(f"reference-vs-reference: {n} runs, faults fired {({k: v for k, v in sorted(fired.items()) if not k.endswith('.deliver')})}")
+    if bad:
+        print(f"HARNESS-ERROR: the reference ASH endpoint violates the delivery oracle against itself in {len(bad)} case(s); first: {bad[:3]}")
+        return 2
+    print("reference ASH endpoint: exactly-once in-order delivery holds against itself under all injected faults")
+    return 0
